@@ -131,15 +131,17 @@ impl Kind {
         }
     }
     /// switches tried when attributing a stage A mismatch
+    /// Deviation switches tried when attributing a mismatch. Switches 0, 1, 5, 6, 8, 10 (and layout switches 0, 1, kern
+    /// switches 0-2) describe defects that were repaired in /repo (KNOWN_FINDINGS.txt `fixed:` lines); they are no
+    /// longer candidates, so a return of that behaviour is reported as a plain mismatch.
     fn cands(&self) -> &'static [usize] {
         match self {
-            Kind::Single => &[0, 1, 10],
-            Kind::Pair => &[0, 6, 10, 1],
-            Kind::Cursive => &[5, 10, 11],
-            Kind::MarkBase | Kind::MarkLig => &[2, 10, 11],
-            Kind::MarkMark => &[3, 4, 10, 11],
-            Kind::Context => &[7, 8, 9, 10, 0],
-            Kind::Combo | Kind::Overflow => &[0, 2, 3, 4, 5, 6],
+            Kind::Single | Kind::Pair => &[],
+            Kind::Cursive => &[11],
+            Kind::MarkBase | Kind::MarkLig => &[2, 11],
+            Kind::MarkMark => &[3, 4, 11],
+            Kind::Context => &[7, 9],
+            Kind::Combo | Kind::Overflow => &[2, 3, 4],
         }
     }
 }
@@ -944,7 +946,7 @@ fn check_layout(
             continue;
         }
         let mut hit: Option<Vec<usize>> = None;
-        for s in subsets(&[0, 1, 2, 3], 3) {
+        for s in subsets(&[2, 3], 2) {
             let sw = s.iter().fold(LSw::default(), |a, &i| a.with(i));
             if mask(pen_positions_sw(&advs, &obs, d, sw)) == abs {
                 hit = Some(s);
@@ -1058,6 +1060,11 @@ impl<'a> Case<'a> {
     /// compare observed Info values with the reference; attribute a mismatch
     fn compare_infos(&self, acc: &mut Acc, seam: &str, feats: &[u32], want: &[PosOut], got: &[PosOut], sets: &[Vec<usize>]) {
         if got == want {
+            return;
+        }
+        // Sums that the API cannot represent (Info.kerning and anchor coordinates are i16): the property
+        // cannot demand a value there; only panic freedom is required (checked by the caller's guard).
+        if self.p.kind == Kind::Overflow {
             return;
         }
         let mut hit: Option<&Vec<usize>> = None;
@@ -1214,7 +1221,16 @@ fn subsets(cands: &[usize], max: usize) -> Vec<Vec<usize>> {
 }
 
 fn run_prog(ctx: &Ctx, p: &Prog, thorough: bool, all_strings: &[Vec<G>]) -> Acc {
-    let maxlen = if thorough { p.maxlen.1 } else { p.maxlen.0 };
+    // quick: strings <= 3 for the large families (value formats, cursive, mark attachment), the design bound for
+    // context/combo programs; at most one non-default encoding choice. thorough: the design bounds.
+    let maxlen = if thorough {
+        p.maxlen.1
+    } else if matches!(p.kind, Kind::Context | Kind::Combo | Kind::Overflow) {
+        p.maxlen.0
+    } else {
+        p.maxlen.0.min(3)
+    };
+    let enc_bound = if thorough { 2 } else { 1 };
     let pid = H::new().str(&p.name).get();
     let denc = Enc::default();
     let tables = vec![(tag(b"GPOS"), p.gpos.encode(&denc)), (tag(b"GDEF"), p.gdef.encode(&denc))];
@@ -1226,7 +1242,7 @@ fn run_prog(ctx: &Ctx, p: &Prog, thorough: bool, all_strings: &[Vec<G>]) -> Acc 
         with_font(&font_z, |f_z| {
             let acc = std::cell::RefCell::new(Acc::default());
             let fonts = std::cell::RefCell::new(Fonts { nz: f_nz, z: f_z });
-            let stats = mcx::explore(2, |c| {
+            let stats = mcx::explore(enc_bound, |c| {
                 let enc = Enc { cov_fmt: [1u8, 2][c.dev(2)], class_fmt: [2u8, 1][c.dev(2)], ext: c.dev(2) == 1 };
                 let is_default = enc == denc;
                 let mut acc = acc.borrow_mut();
@@ -1505,7 +1521,7 @@ fn kern_compare(acc: &mut Acc, data: &[u8], s: &[G], observed: &Result<Vec<i32>,
         }
     }
     let mut hit: Option<Vec<usize>> = None;
-    'outer: for set in all_subsets(&[0, 1, 2, 3], 4) {
+    'outer: for set in all_subsets(&[3], 1) {
         let sw = set.iter().fold(KSw::default(), |a, &i| a.with(i));
         for m in KERN_MIN_MODES {
             match (kern_expect(data, s, m, sw), observed) {
@@ -1744,6 +1760,7 @@ pub fn run(ctx: &Ctx) {
          or the kern reference produced a non-zero kerning; outcomes are distinct (Info values, absolute origins) results.",
     );
     ctx.assume("drawing convention: pen starts at 0 and advances by hori_advance, glyph drawn at pen + offset; right-to-left = the same list drawn in reverse order (origin_k = -sum_{j<=k} adv_j + offset_k from the right end)");
+    ctx.assume("programs of kind 'overflow' accumulate adjustments beyond the i16 range of Info.kerning / Anchor: only panic freedom is demanded for them");
     ctx.assume("horizontal layout: yAdvance of a value record has no observable effect; Device (hinting) tables have no effect in design units");
     ctx.assume("mark attachment (MarkBase/MarkLig): the lookup flags select the mark; the glyph attached to is the nearest preceding glyph that is not a GDEF mark (HarfBuzz); IgnoreBaseGlyphs/IgnoreLigatures are not enumerated for mark attachment lookups because the specification does not define them there");
     ctx.assume("MarkMarkPos: the preceding mark is found with the lookup flags minus the three Ignore* bits (HarfBuzz); the ligature component of a mark after L is the liga_component_pos it carries");
@@ -1776,8 +1793,8 @@ pub fn run(ctx: &Ctx) {
         "bounds",
         json!({
             "gpos_programs": progs.len(), "gpos_programs_by_kind": by_kind, "gsub_ligature_programs": nlig, "kern_tables": nkern,
-            "encodings_per_program": 7, "alphabet": ["a", "b", "L", "m1", "m2"],
-            "max_string_length": {"pair": if thorough { 4 } else { 3 }, "marklig": 4, "others": if thorough { 5 } else { 4 },
+            "encodings_per_program": if thorough { 7 } else { 4 }, "encoding_deviation_bound": if thorough { 2 } else { 1 }, "alphabet": ["a", "b", "L", "m1", "m2"],
+            "max_string_length": {"pair": if thorough { 4 } else { 3 }, "marklig": if thorough { 4 } else { 3 }, "context_combo": if thorough { 5 } else { 4 }, "others": if thorough { 5 } else { 3 },
                                    "gsub_ligature": if thorough { 5 } else { 4 }, "kern_apply_fallback": if thorough { 3 } else { 2 }, "kern_shape": 3},
             "value_formats": "SinglePos 16 x 8 flags x 2 formats; PairPos 16 x 16 x 8 flags x 2 formats; 13 device formats x 4 device menus",
             "directions": ["LeftToRight", "RightToLeft"], "tuples": TUPLES.iter().map(|t| json!(t)).collect::<Vec<_>>(),
